@@ -176,8 +176,13 @@ def _gen_case_(rng, tier, g, big):
         tables[rng.randrange(len(tables) - 1)] = []
         if perms is not None:
             perms = None
+    inner_ms = None
+    if op == 'mergesort' and not presorted and perms is None and \
+            hdr_arg is None and missing is None and not ragged and \
+            all(tables) and rng.random() < 0.15:
+        inner_ms = [rng.choice([None, True, False]) for _ in tables]
     return {'prop': PROP, 'op': op, 'tables': tables, 'perms': perms,
-            'eqnum': eqnum,
+            'eqnum': eqnum, 'inner_ms': inner_ms,
             'sweep': sweep, 'inner': inner,
             'key': key, 'reverse': rng.random() < 0.35,
             'buffersize': rng.choice([255, 256, 257, 258, 300, n0 - 1, n0])
@@ -265,6 +270,12 @@ def _history(e, case, tables, expected, td, sb, log, probes):
         view = e.sort(src0, case['key'], reverse=case['reverse'], **kw)
     else:
         ins = srcs
+        if case.get('inner_ms') and not case['presorted']:
+            # some inputs are sort views on the same key themselves, in
+            # either direction: mergesort sorts what it is given
+            ins = [s_ if f_ is None else e.sort(s_, case['key'], reverse=f_)
+                   for s_, f_ in zip(ins, case['inner_ms'])]
+            probes['mergesort-of-sort-views'] = 1
         if case['presorted']:
             # inputs presorted by the reference sort (not by petl)
             ins = [ref_sort(t, case['key'], case['reverse']) for t in tables]
